@@ -6,6 +6,7 @@ package harness
 // -1 for bodies of unknown length; Hijack hands over a net.Conn).
 
 import (
+	"strconv"
 	"errors"
 	"bufio"
 	"context"
@@ -52,6 +53,8 @@ type Exchange struct {
 	// holdHeader: a slow connection: the first WriteHeader call blocks until the channel is closed
 	holdHeader chan struct{}
 	HeldHeader bool // a WriteHeader call is (or was) held
+	// SurplusBytes: body bytes the handler wrote beyond the Content-Length it had declared (dropped, as net/http does)
+	SurplusBytes int
 }
 
 func (e *Exchange) Header_() http.Header { return e.hdr }
@@ -112,10 +115,28 @@ func (r recorder) Write(p []byte) (int, error) {
 		e.Status = 200
 	}
 	r.snapshotLocked()
-	e.Body = append(e.Body, p...)
+	// net/http holds a handler to the Content-Length it declared: surplus bytes are not sent (http.ErrContentLength)
+	accepted := p
+	var clErr error
+	if cl := e.Header.Get("Content-Length"); cl != "" {
+		if n, err := strconv.ParseInt(strings.TrimSpace(cl), 10, 64); err == nil && n >= 0 {
+			if room := n - int64(len(e.Body)); int64(len(p)) > room {
+				if room < 0 {
+					room = 0
+				}
+				accepted = p[:room]
+				clErr = http.ErrContentLength
+				e.SurplusBytes += len(p) - int(room)
+			}
+		}
+	}
+	e.Body = append(e.Body, accepted...)
 	e.cond.Broadcast()
 	if e.Aborted {
 		return 0, net.ErrClosed
+	}
+	if clErr != nil {
+		return len(accepted), clErr
 	}
 	return len(p), nil
 }
